@@ -21,8 +21,8 @@ PROP = "C48"
 META = {
     "level": "exploration",
     "technique": "differential monitor against an independent RFC 5849 signer over generated secrets/methods/URLs/parameter sets; mismatches classified by deviation switches",
-    "level_text": "Both signature functions are executed on generated inputs (parameter names and values over unreserved, reserved, space, '+', '%', non-ASCII and astral characters; secrets with reserved characters; mixed-case methods, schemes and hosts; explicit default and non-default ports; escaped paths) and compared byte-for-byte with an independent RFC 5849 §3.4 implementation that reproduces the RFC's own worked examples.",
-    "level_note": "Trusts vf/refs/rfc5849.py (self-checked against three published examples on import). URLs carry no query, fragment, userinfo or empty path and values are str/int (what the statement does not pin).",
+    "level_text": "Both signature functions are executed on generated inputs (parameter names and values over unreserved, reserved, space, '+', '%', non-ASCII and astral characters; secrets with reserved characters; mixed-case methods, schemes and hosts; registered names, IPv4 and bracketed IPv6-literal hosts; explicit default and non-default ports; escaped paths) and compared byte-for-byte with an independent RFC 5849 §3.4 implementation that reproduces the RFC's own worked examples.",
+    "level_note": "Trusts vf/refs/rfc5849.py (self-checked against three published examples on import). URLs carry no query, fragment, userinfo or empty path and values are str/int (what the statement does not pin). Ports with leading zeros / empty ports are not generated: RFC 5849 §3.4.1.2 does not pin numeric normalisation of the port text.",
     "design_ref": "DESIGN.md §4 C48",
     "engine": "oracle",
 }
@@ -37,7 +37,8 @@ ASSUMPTIONS = [
     "OAuth 1.0 key construction is taken from the statement ('encoded key') = RFC 5849 §3.4.2 = OAuth Core 1.0 §9.2",
 ]
 REQUIRED_COUNTERS = ["oracle_evals", "sig10_evals", "sig10a_evals", "class_name_needs_encoding",
-                     "class_default_port", "class_secret_needs_encoding"]
+                     "class_default_port", "class_secret_needs_encoding", "class_ipv6_literal_host",
+                     "class_ipv6_literal_host_with_port"]
 
 
 def _selfcheck():
@@ -57,6 +58,11 @@ def _selfcheck():
                    ("oauth_nonce", "kllo9940pd9333jh"), ("oauth_version", "1.0")]
     assert ref.hmac_sha1_signature("GET", "http://photos.example.net/photos", p3, "kd94hf93k423kf44",
                                    "pfkkdhi9sl3r4s00") == b"tR3+Ty81lMeYAr/Fid0kMTYa/WM="
+    # IP-literal hosts keep their brackets; only a real port is a port
+    assert ref.base_string_uri("HTTPS://[2001:DB8::1]:443/r") == "https://[2001:db8::1]/r"
+    assert ref.base_string_uri("http://[::1]:8080/r") == "http://[::1]:8080/r"
+    assert ref.base_string_uri("http://[::80]/r") == "http://[::80]/r"
+    assert ref.base_string_uri("http://[::1]:8080/r", drop_ipv6_brackets=True) == "http://::1:8080/r"
 
 
 _selfcheck()
@@ -123,10 +129,27 @@ def gen_secret(rng):
     return rng.choice(["", "&", "a&b", "%26", "+", " "])
 
 
+# IPv6 literals (RFC 3986 IP-literal, brackets are part of the host): loopback, compressed, full, embedded IPv4,
+# and addresses whose last group reads like a default port (":80]" / ":443]")
+V6_HOSTS = ["[::1]", "[::]", "[2001:db8::1]", "[2001:db8:85a3::8a2e:370:7334]", "[fe80::abcd:ef01:2345:6789]",
+            "[2001:db8:0:0:0:0:0:a]", "[::ffff:192.0.2.1]", "[::80]", "[2001:db8::443]", "[abcd:ef::80]", "[1::443]"]
+
+
+def gen_v6(rng):
+    if rng.random() < 0.6:
+        return rng.choice(V6_HOSTS)
+    n = rng.randint(1, 6)
+    groups = ["%x" % rng.choice([0, 1, 0x80, 0x443, 0xa, 0xdb8, 0xffff, rng.randrange(0x10000)]) for _ in range(n)]
+    k = rng.randint(0, n)
+    return "[" + ":".join(groups[:k]) + "::" + ":".join(groups[k:]) + "]"
+
+
 def gen_url(rng, port_cls, path_params):
     scheme = rng.choice(["http", "https"])
     host = rng.choice(["example.com", "api.example.org", "photos.example.net", "localhost", "127.0.0.1", "a-b.c",
                        "xn--bcher-kva.example"])
+    if rng.random() < 0.2:
+        host = gen_v6(rng)
     if rng.random() < 0.5:
         host = "".join(c.upper() if rng.random() < 0.5 else c for c in host)
     shown = scheme if rng.random() < 0.6 else "".join(c.upper() if rng.random() < 0.5 else c for c in scheme)
@@ -185,6 +208,10 @@ def directed_cases():
     yield dict(base, url="HTTP://Photos.Example.NET:80/photos")                       # default port
     yield dict(base, url="https://photos.example.net:443/photos")
     yield dict(base, url="http://photos.example.net/photos;v=1")                      # path parameters
+    yield dict(base, url="http://[::1]:8080/r")                                       # IPv6 literal hosts
+    yield dict(base, url="https://[2001:DB8::1]:443/r")
+    yield dict(base, url="HTTP://[::80]/r")
+    yield dict(base, url="http://[2001:db8::443]:80/r")
     yield dict(base, consumer="se&cr=et", token="to ken+")                            # secrets need encoding
 
 
@@ -194,12 +221,15 @@ SWITCHES = {
     "raw_names": "base-string/parameter-names-not-percent-encoded",
     "keep_default_port": "base-string/default-port-kept",
     "drop_path_params": "base-string/path-parameters-dropped",
+    "drop_ipv6_brackets": "base-string/ipv6-literal-brackets-dropped",
     "raw_key": "key/oauth10-secrets-not-percent-encoded",
 }
 WHAT = {
     "raw_names": "parameter names are neither percent-encoded nor sorted by their encoded form (RFC 5849 §3.4.1.3.2)",
     "keep_default_port": "the scheme's default port is kept in the base string URI (RFC 5849 §3.4.1.2 requires dropping :80/:443)",
     "drop_path_params": "';params' of the last path segment are cut out of the base string URI (RFC 5849 §3.4.1.2: path as sent)",
+    "drop_ipv6_brackets": "the brackets of an IPv6-literal host are missing from the base string URI (RFC 5849 §3.4.1.2: host and "
+                          "port match the Host header field, RFC 3986 host = IP-literal incl. brackets)",
     "raw_key": "the OAuth 1.0 HMAC key uses the raw secrets instead of their percent-encoded form (RFC 5849 §3.4.2)",
 }
 
@@ -223,7 +253,8 @@ def run_case(case, ctx):
     m = ref._URL_RE.match(url)
     scheme, authority, path = m.group(1).lower(), m.group(2).lower(), m.group(3)
     default_port = (scheme == "http" and authority.endswith(":80")) or (scheme == "https" and authority.endswith(":443"))
-    has_port = ":" in authority
+    ipv6 = authority.startswith("[")
+    has_port = ":" in authority.rsplit("]", 1)[-1]
     path_params = ";" in path.rsplit("/", 1)[-1]
     secret_needs = ref.enc(consumer) != consumer or ref.enc(token_secret) != token_secret
     mixed = m.group(1) != scheme or m.group(2) != authority or method != method.upper()
@@ -237,7 +268,11 @@ def run_case(case, ctx):
         ctx.count("class_secret_needs_encoding")
     if mixed:
         ctx.count("class_mixed_case")
-    nontrivial = bool(params) and (names_need or vals_need or mixed or has_port or secret_needs)
+    if ipv6:
+        ctx.count("class_ipv6_literal_host")
+        if has_port:
+            ctx.count("class_ipv6_literal_host_with_port")
+    nontrivial = bool(params) and (names_need or vals_need or mixed or has_port or secret_needs or ipv6)
     new = ctx.mark(("c48", consumer, token, method, url, case["params"]), nontrivial)
     if new and nontrivial and ctx.evaluations % 499 == 7:
         ctx.sample(case)
@@ -246,7 +281,7 @@ def run_case(case, ctx):
     token_d = None if token is None else {"key": "tk", "secret": token}
     want = ref.hmac_sha1_signature(method, url, str_params, consumer, token_secret)
     applicable = [s for s, on in (("raw_names", names_need), ("keep_default_port", default_port),
-                                  ("drop_path_params", path_params)) if on]
+                                  ("drop_path_params", path_params), ("drop_ipv6_brackets", ipv6)) if on]
     for fname, counter, extra in (("_oauth10a_signature", "sig10a_evals", []),
                                   ("_oauth_signature", "sig10_evals", ["raw_key"] if secret_needs else [])):
         f = getattr(auth, fname)
